@@ -133,6 +133,9 @@ def check(rep, tier, seed):
     rep.outside_claim += ["bytes on the wire", "a client authorization header on requests the proxy does not sign (no key / exempt uploads)"]
     rep.trusted += ["http crate HeaderMap", "mirsym", "z3"]
 
+    import e2e
+    e2e.confirm(rep, "C05")
+
 
 def replay(path):
     print(open(path).read())
